@@ -12,9 +12,12 @@ import Plenc.Codec
 
   Shape: a message is a list of *records* `(index, wire type, payload)`; ONE
   function (`renderRec`) turns a record into bytes; ONE place (`fieldsOf`) states
-  the omission rule; `payload` says, per kind, what the payload of a present
-  value is.  Nothing here computes a length in advance: a length prefix is by
-  definition the length of the payload that follows it.
+  the omission rule; ONE table (`form`) says, per kind, what the wire type and
+  the payload of a present value are.  Nothing here computes a length in
+  advance: a length prefix is by definition the length of the payload that
+  follows it.  All definitions are structurally recursive, so the kernel can
+  evaluate `Spec.encode` on literals (`decide +kernel`) and the compiler produces
+  an executable.
 
   Only the types (`Ty`, `Val`, `Fields`, `WT`, `Bytes`) and the integer
   primitives of Plenc/Varint.lean + Plenc/Basic.lean (base-128 varint, zig-zag,
@@ -105,65 +108,81 @@ def orEmpty (i : Nat) (rs : List Rec) : List Rec :=
 
 /-! ### payloads and records -/
 
+/-- How a present value is written: its payload, and the record(s) it
+contributes to an enclosing message when it sits there under index `i`. -/
+structure Form where
+  payload : Bytes
+  recs : Nat → List Rec
+
+/-- the ordinary case: ONE record, of wire type `wt`, carrying the payload. -/
+def one (wt : WT) (p : Bytes) : Form := ⟨p, fun i => [⟨i, wt, p⟩]⟩
+
 mutual
-/-- the payload of a present value, per kind. -/
-def payload : Ty → Val → Bytes
-  | .bool, .bool b => varint (if b then 1 else 0)
-  | .int _, .int i => svarint i                      -- signed: zig-zag
-  | .uint _, .uint n => varint n                     -- unsigned: plain
-  | .flat w, .int i => varint (wrapU w i)            -- "flat": the w-bit two's-complement pattern, plain
-  | .f32, .f32 bits => leBytes 4 bits                -- IEEE bits, little-endian
-  | .f64, .f64 bits => leBytes 8 bits
-  | .str _, .str s => s
-  | .bytes, .bytes s => s
+/-- the table of kinds: wire type and payload of a present value. -/
+def form : Ty → Val → Form
+  | .bool, .bool b => one .varint (varint (if b then 1 else 0))
+  | .int _, .int i => one .varint (svarint i)             -- signed: zig-zag
+  | .uint _, .uint n => one .varint (varint n)            -- unsigned: plain
+  | .flat w, .int i => one .varint (varint (wrapU w i))   -- "flat": the w-bit two's-complement pattern, plain
+  | .f32, .f32 bits => one .w32 (leBytes 4 bits)          -- IEEE bits, little-endian
+  | .f64, .f64 bits => one .w64 (leBytes 8 bits)
+  | .str _, .str s => one .len s
+  | .bytes, .bytes s => one .len s
   | .time compat, .time sec nsec =>
       -- struct { seconds = 1; nanos = 2 }, both always written; zig-zag, or
       -- (google.protobuf.Timestamp compatible) plain two's-complement varints
-      render [⟨1, .varint, if compat then varint (wrapU 64 sec) else svarint sec⟩,
-              ⟨2, .varint, if compat then varint nsec else svarint nsec⟩]
-  | .ptr _, .ptr none => []                          -- nothing to write
-  | .ptr t, .ptr (some v) => payload t v             -- a pointer is its target
-  | .vslice t, .slice vs => vs.flatMap fun v => payload t v        -- packed
-  | .fslice t, .slice vs => vs.flatMap fun v => payload t v        -- packed
-  | .lslice t, .slice vs =>                          -- WTSlice: count, then length-prefixed elements
-      varint vs.length ++ vs.flatMap fun v => lenPrefixed (payload t v)
-  | .struct _ fs, .struct vs => render (fieldsOf fs vs)
-  | .map k v false, .map (some es) =>                -- WTSlice of entries; entry = message {key = 1; value = 2}
-      varint es.length ++ es.flatMap fun e =>
-        lenPrefixed (render ((if absent e.1 then [] else recsOf k 1 e.1)
-                          ++ (if absent e.2 then [] else recsOf v 2 e.2)))
-  | .map _ _ false, .map none => varint 0
-  -- The two protobuf repeated forms have no payload of their own: they exist as
-  -- several records of the enclosing message (`recsOf`). Outside a struct field
-  -- (top level, slice element, pointer target) there is no enclosing message;
-  -- what is then written is the bare sequence below, which wrapper.go documents
-  -- as not decodable ("this does not work outside of a struct").
-  | .pslice t, .slice vs => vs.flatMap fun v => payload t v
+      one .len (render [⟨1, .varint, if compat then varint (wrapU 64 sec) else svarint sec⟩,
+                        ⟨2, .varint, if compat then varint nsec else svarint nsec⟩])
+  -- a pointer is written as its target; a nil pointer writes nothing
+  | .ptr _, .ptr none => ⟨[], fun _ => []⟩
+  | .ptr t, .ptr (some v) => form t v
+  -- packed: the element payloads back to back
+  | .vslice t, .slice vs => one .len (vs.flatMap fun v => (form t v).payload)
+  | .fslice t, .slice vs => one .len (vs.flatMap fun v => (form t v).payload)
+  -- WTSlice: count, then each element payload with its length
+  | .lslice t, .slice vs =>
+      one .slice (varint vs.length ++ vs.flatMap fun v => lenPrefixed (form t v).payload)
+  -- nested message
+  | .struct _ fs, .struct vs => one .len (render (fieldsOf fs vs))
+  -- WTSlice of entries; an entry is the message {key = 1; value = 2}, same omission rule
+  | .map k v false, .map (some es) =>
+      one .slice (varint es.length ++ es.flatMap fun e =>
+        lenPrefixed (render ((if absent e.1 then [] else (form k e.1).recs 1)
+                          ++ (if absent e.2 then [] else (form v e.2).recs 2))))
+  | .map _ _ false, .map none => one .slice (varint 0)
+  -- The two protobuf repeated forms: one length-delimited record per element
+  -- (an element without a record of its own — nil pointer — as an empty record)
+  -- / per map entry. They have no payload of their own; outside a struct field
+  -- (top level, slice element, pointer target) there is no enclosing message and
+  -- what is written is the bare sequence given as `payload` here, which
+  -- wrapper.go documents as not decodable ("does not work outside of a struct").
+  | .pslice t, .slice vs =>
+      ⟨vs.flatMap fun v => (form t v).payload,
+       fun i => vs.flatMap fun v => orEmpty i ((form t v).recs i)⟩
   | .map k v true, .map (some es) =>
-      es.flatMap fun e =>
-        lenPrefixed (render ((if absent e.1 then [] else recsOf k 1 e.1)
-                          ++ (if absent e.2 then [] else recsOf v 2 e.2)))
-  | _, _ => []
+      ⟨es.flatMap fun e =>
+         lenPrefixed (render ((if absent e.1 then [] else (form k e.1).recs 1)
+                           ++ (if absent e.2 then [] else (form v e.2).recs 2))),
+       fun i => es.map fun e =>
+         ⟨i, .len, render ((if absent e.1 then [] else (form k e.1).recs 1)
+                        ++ (if absent e.2 then [] else (form v e.2).recs 2))⟩⟩
+  | _, _ => ⟨[], fun _ => []⟩
 /-- the records of a struct value: fields in declaration order; a field whose
 value has no presence yields no record (the omission rule, stated here once —
 map entries re-use it for key and value). -/
 def fieldsOf : Fields → List Val → List Rec
-  | (i, _, t) :: fs, v :: vs => (if absent v then [] else recsOf t i v) ++ fieldsOf fs vs
+  | (i, _, t) :: fs, v :: vs => (if absent v then [] else (form t v).recs i) ++ fieldsOf fs vs
   | _, _ => []
+end
+
+/-- the payload of a present value. -/
+def payload (t : Ty) (v : Val) : Bytes := (form t v).payload
+
 /-- the record(s) a present value contributes under index `i`: one, carrying
 its payload — except that the protobuf repeated forms contribute one
 length-delimited record per element / per map entry, and a pointer contributes
 what its target contributes (nothing when nil). -/
-def recsOf : Ty → Nat → Val → List Rec
-  | .pslice t, i, .slice vs => vs.flatMap fun v => orEmpty i (recsOf t i v)
-  | .map k v true, i, .map (some es) =>
-      es.map fun e => ⟨i, .len, render ((if absent e.1 then [] else recsOf k 1 e.1)
-                                     ++ (if absent e.2 then [] else recsOf v 2 e.2))⟩
-  | .map _ _ true, _, .map none => []
-  | .ptr _, _, .ptr none => []
-  | .ptr t, i, .ptr (some v) => recsOf t i v
-  | t, i, v => [⟨i, wtOf t, payload t v⟩]
-end
+def recsOf (t : Ty) (i : Nat) (v : Val) : List Rec := (form t v).recs i
 
 /-- What `Marshal(nil, v)` returns for a value `v` of a type whose codec tree is
 `t`: nothing when the value has no presence, else its bare payload (no tag, no
